@@ -1369,6 +1369,127 @@ def shift_shots_search(ctx, par, fixed):
     ctx.ob("C06_search_shift_shots", bad == 0, "search", f"{bad} disagreements" if bad else "")
 
 
+# ---------------------------------------------------------------------------------------
+# set_parameters with ONE array (or a list of rows) for circuits of equal-arity gates
+# ---------------------------------------------------------------------------------------
+
+ARRAY_FORMS = ("2d-float64", "2d-float32", "2d-int", "2d-fortran", "flat-array", "flat-float32", "column", "list-of-arrays", "list-of-tuples", "tuple-of-lists")
+
+
+def array_form(form, rows, rnd, clss=None):
+    """(object handed to set_parameters, the values it denotes per gate) for the canonical rows."""
+    if form in ("2d-float32", "flat-float32"):
+        rows = [[float(np.float32(x)) for x in r] for r in rows]
+    if form == "2d-int":
+        rows = [[float(rnd.randint(-3, 3)) for _ in r] for r in rows]
+        for r, cl in zip(rows, clss or []):
+            if cl.name == "MS":
+                r[-1] = float(rnd.randint(0, 1))  # MS: 0 <= theta <= pi/2
+    a = np.array(rows, dtype=float)
+    if form == "2d-float64":
+        obj = a.copy()
+    elif form == "2d-float32":
+        obj = a.astype(np.float32)
+    elif form == "2d-int":
+        obj = a.astype(np.int64)
+    elif form == "2d-fortran":
+        obj = np.asfortranarray(a)
+    elif form == "flat-array":
+        obj = a.reshape(-1).copy()
+    elif form == "flat-float32":
+        obj = a.reshape(-1).astype(np.float32)
+    elif form == "column":
+        obj = a.reshape(-1, 1).copy()
+    elif form == "list-of-arrays":
+        obj = [np.array(r) for r in rows]
+    elif form == "list-of-tuples":
+        obj = [tuple(r) for r in rows]
+    elif form == "tuple-of-lists":
+        obj = tuple(list(r) for r in rows)
+    else:  # pragma: no cover
+        raise ValueError(form)
+    return obj, rows
+
+
+def array_form_code(form, obj):
+    if isinstance(obj, np.ndarray):
+        s = f"np.array({pyrepr(obj.tolist())}, dtype=np.{obj.dtype.name})"
+        return f"np.asfortranarray({s})" if form == "2d-fortran" else s
+    return pyrepr(obj)
+
+
+def array_forms_search(ctx, par, fixed):
+    """update == rebuild, for per-gate parameter sets given as one array with one row per gate (and the
+    neighbouring forms: flat arrays, columns, lists of rows) on circuits whose trainable gates all take
+    the same number p of parameters, mixed with fixed and non-trainable gates."""
+    rnd = ctx.rng
+    v_params, v_unitary = ns()["v_params"], ns()["v_unitary"]
+    by_p = {}
+    for key in sorted(par):
+        cls = par[key]
+        if cls.kind == "angles" and cls.width == cls.slots and 1 <= cls.slots <= 3:
+            by_p.setdefault(cls.slots, []).append(key)
+    bad, seen, ncases = 0, set(), 0
+    fnames = sorted(fixed)
+    for p in sorted(by_p):
+        for form in ARRAY_FORMS:
+            if form == "column" and p > 1:
+                continue  # rows of a column are 1-element arrays: only meaningful for one-parameter gates
+            for rep in range(6 if ctx.thorough else 3):
+                n = rnd.randint(max(cls_nq for cls_nq in [par[k].nq for k in by_p[p]]) if rep == 0 else 2, 4)
+                m = [1, 2, 3][rep % 3] if rep < 3 else rnd.randint(1, 5)
+                recipe = []
+                names = [k for k in by_p[p] if par[k].nq <= n]
+                for j in range(m):
+                    key = names[(rep + j) % len(names)] if rep == 0 else rnd.choice(names)
+                    cls = par[key]
+                    recipe.append({"name": key, "cls": cls, "qs": rnd.sample(range(n), cls.nq), "vals": rand_value(cls, rnd), "trainable": True, "controls": []})
+                    if rnd.random() < 0.5:
+                        fx = rnd.choice([f for f in fnames if fixed[f] <= n])
+                        recipe.append({"name": fx, "cls": None, "qs": rnd.sample(range(n), fixed[fx]), "vals": None, "trainable": False, "controls": []})
+                    if rnd.random() < 0.4:
+                        k2 = rnd.choice([k for k in sorted(par) if par[k].kind == "angles" and par[k].nq <= n])
+                        recipe.append({"name": k2, "cls": par[k2], "qs": rnd.sample(range(n), par[k2].nq), "vals": rand_value(par[k2], rnd), "trainable": False, "controls": []})
+                rnd.shuffle(recipe)
+                tidx = [i for i, it in enumerate(recipe) if it["trainable"]]
+                rows = [rand_value(recipe[i]["cls"], rnd) for i in tidx]
+                obj, vals = array_form(form, rows, rnd, [recipe[i]["cls"] for i in tidx])
+                ncases += 1
+                ctx.case(("array-form", p, form, n, tuple((it["name"], it["trainable"], tuple(it["qs"])) for it in recipe)))
+                ctx.stat("array_form_" + form)
+                values = {i: list(v) for i, v in zip(tidx, vals)}
+                fresh = build(n, recipe, values)
+                exp_p, exp_u = v_params(fresh), v_unitary(fresh)
+                c = build(n, recipe)
+                # float32 entries stay float32 inside the gates: single-precision matrices
+                tol_p, tol_u = (1e-12, 1e-10) if "float32" not in form else (1e-6, 1e-5)
+                try:
+                    c.set_parameters(obj)
+                    got_p, got_u = v_params(c), v_unitary(c)
+                    okk = got_p.shape == exp_p.shape and np.allclose(got_p, exp_p, atol=tol_p, rtol=0) and np.allclose(got_u, exp_u, atol=tol_u, rtol=0)
+                    observed = "parameters/unitary differ: " + str([tuple(np.asarray(x).reshape(-1).tolist()) for x in c.get_parameters()])[:300] if not okk else ""
+                except Exception as e:  # noqa: BLE001
+                    okk, observed = False, f"{type(e).__name__}: {e}"[:300]
+                if okk:
+                    continue
+                bad += 1
+                key = f"set_parameters:array-form:{form}"
+                if key in seen:
+                    continue
+                seen.add(key)
+                code = ("import numpy as np\nfrom qibo import Circuit, gates, set_backend\nset_backend('numpy')\n"
+                        + build_code(n, recipe) + build_code(n, recipe, values, var="fresh")
+                        + f"c.set_parameters({array_form_code(form, obj)})\n"
+                        + "flat = lambda ps: [float(np.real(x)) for g in ps for x in np.asarray(g).reshape(-1)]\n"
+                        + f"assert np.allclose(flat(c.get_parameters()), flat(fresh.get_parameters()), atol={tol_p!r})\n"
+                        + f"assert np.allclose(c.unitary(), fresh.unitary(), atol={tol_u!r})\n")
+                ctx.fail(key, f"set_parameters with the {form} form (shape {getattr(obj, 'shape', len(obj))}) of the per-gate values of a circuit whose {len(tidx)} trainable gates "
+                              f"{[recipe[i]['name'] for i in tidx]} all take {p} parameter(s) does not leave the circuit equal to the one rebuilt from those values",
+                         code, expected=[tuple(v) for v in vals], observed=observed, broken=["C06_search_set_parameters_array_forms"])
+    ctx.stat("array_form_cases", ncases)
+    ctx.ob("C06_search_set_parameters_array_forms", bad == 0, "search", f"{bad} of {ncases} updates differ from the rebuilt circuit" if bad else "")
+
+
 def run(ctx):
     MODULES, THEOREMS = registry(PROP)
     ctx.theorems = THEOREMS
@@ -1378,6 +1499,7 @@ def run(ctx):
     rotation_form(ctx)
     bookkeeping_correspondence(ctx, par, fixed)
     views_search(ctx, par, fixed)
+    array_forms_search(ctx, par, fixed)
     shift_search(ctx, par, fixed)
     shift_shots_search(ctx, par, fixed)
     from props import C06_gateobj
